@@ -100,6 +100,13 @@ func parseOne(s string, family string, wantCorr bool) (*hdkeychain.ExtendedKey, 
 		rep.Violate("C05:panic", "NewKeyFromString panicked", map[string]interface{}{"string": s, "family": family, "panic": msg})
 		return nil, fmt.Errorf("panic")
 	}
+	// the parser is a function of the string: the same string again, immediately (a verdict must not depend on what was
+	// parsed before -- e.g. a memo of the last key material looked at) (review round 2)
+	if k2, err2 := hdkeychain.NewKeyFromString(s); errClass(err2) != errClass(err) ||
+		(err == nil && err2 == nil && (!sameFields(k.VerifFields(), k2.VerifFields()) || k.String() != k2.String())) {
+		rep.Violate("C05:stateless", "NewKeyFromString gives different results for the same string when called twice in a row",
+			map[string]interface{}{"string": s, "family": family, "parse_twice": true, "first_err": fmt.Sprint(err), "second_err": fmt.Sprint(err2)})
+	}
 	cls, payload := hdref.ParseString(nil, s)
 	rep.Count("parse_"+family, "p"+s, cls == 0 || cls == 6 || cls == 4) // passes the length and checksum layers
 	rep.Histogram[fmt.Sprintf("class_%d", cls)]++
@@ -512,6 +519,24 @@ func main() {
 				parseOne(v, "affix_outside_alphabet", vi < 2 && ai < 6)
 			}
 		}
+		// a character replaced by a WELL-FORMED multi-byte UTF-8 sequence whose code point is congruent to it mod 256
+		// (2-, 3- and 4-byte encodings), at every position, and all characters at once: a decoder that walks code points
+		// instead of bytes and narrows them would take these for the original (review round 2)
+		for pos := 0; pos < len(valid[vi]); pos++ {
+			for ci, add := range []rune{0x100, 0x700, 0x1000, 0xff00, 0x10000, 0x10ff00} {
+				v := valid[vi][:pos] + string(rune(valid[vi][pos])+add) + valid[vi][pos+1:]
+				parseOne(v, "utf8_alias_of_a_character", vi < 2 && pos%16 == ci)
+			}
+		}
+		{
+			var sb strings.Builder
+			for _, ch := range valid[vi] {
+				sb.WriteRune(ch + 0x100)
+			}
+			parseOne(sb.String(), "utf8_alias_of_a_character", vi < 2)
+			parseOne(valid[vi]+"\u0131", "utf8_alias_of_a_character", vi < 2) // dotless i: low byte '1'
+			parseOne("\u0131"+valid[vi], "utf8_alias_of_a_character", vi < 2)
+		}
 		// upper / lower case variants of the whole string
 		parseOne(strings.ToUpper(valid[vi]), "case_variant", vi < 2)
 		parseOne(strings.ToLower(valid[vi]), "case_variant", vi < 2)
@@ -537,6 +562,61 @@ func main() {
 		scalars = append(scalars, new(big.Int).Add(new(big.Int).Add(n, one), off))
 		if t%4 == 0 {
 			scalars = append(scalars, new(big.Int).Sub(n, new(big.Int).Add(off, one)))
+		}
+	}
+	// each 64-bit (and each 32-bit) word independently below / equal / above the corresponding word of n: a comparison
+	// done word by word, or limb by limb, can be wrong only on such combinations (review round 2)
+	nb := hdref.Ser256(n)
+	for _, w := range []int{8, 4} {
+		nw := 32 / w
+		combos := 1
+		for j := 0; j < nw; j++ {
+			combos *= 3
+		}
+		step := 1
+		if w == 4 {
+			step = 3*3*3*3 + 2 // a sample of the 6561 combinations of eight 32-bit limbs ...
+			if cfg.Thorough() || cfg.Search {
+				step = 5
+			}
+		}
+		for cmb := 0; cmb < combos; cmb += step {
+			for variant := 0; variant < 2; variant++ {
+				b := append([]byte{}, nb...)
+				x := cmb
+				for j := 0; j < nw; j++ {
+					word := b[j*w : (j+1)*w]
+					switch x % 3 {
+					case 1: // below
+						if variant == 0 {
+							v := new(big.Int).SetBytes(word)
+							if v.Sign() > 0 {
+								v.Sub(v, one)
+							}
+							v.FillBytes(word)
+						} else {
+							lim := new(big.Int).SetBytes(word)
+							if lim.Sign() > 0 {
+								new(big.Int).Mod(new(big.Int).SetBytes(r.Bytes(w)), lim).FillBytes(word)
+							}
+						}
+					case 2: // above
+						v := new(big.Int).SetBytes(word)
+						top := new(big.Int).Sub(new(big.Int).Lsh(one, uint(8*w)), one)
+						if variant == 0 {
+							if v.Cmp(top) < 0 {
+								v.Add(v, one)
+							}
+						} else if d := new(big.Int).Sub(top, v); d.Sign() > 0 {
+							v.Add(v, one).Add(v, new(big.Int).Mod(new(big.Int).SetBytes(r.Bytes(w)), d))
+						}
+						v.FillBytes(word)
+					}
+					x /= 3
+				}
+				p := payload78(nets[cmb%len(nets)].HDPrivateKeyID[:], byte(r.Intn(256)), r.Bytes(4), r.U32(), r.Bytes(32), append([]byte{0}, b...))
+				parseOne(withChecksum(p), "scalar_wordwise", (w == 8 && (cmb+variant)%7 == 0) || (w == 4 && cmb%211 == 0 && variant == 0))
+			}
 		}
 	}
 	for si, sc := range scalars {
@@ -572,6 +652,12 @@ func main() {
 		net := nets[pi%len(nets)]
 		p := payload78(net.HDPublicKeyID[:], byte(r.Intn(256)), r.Bytes(4), r.U32(), r.Bytes(32), pb)
 		parseOne(withChecksum(p), "pubkey_boundary", true)
+		// the same 33 bytes of key material again under other metadata (and once more after a valid key): state left
+		// over from the previous call must not change the verdict
+		p2 := payload78(nets[(pi+1)%len(nets)].HDPublicKeyID[:], byte(r.Intn(256)), r.Bytes(4), r.U32(), r.Bytes(32), pb)
+		parseOne(withChecksum(p2), "pubkey_boundary_repeated_key_material", pi%4 == 0)
+		parseOne(withChecksum(payload78(net.HDPublicKeyID[:], 0, r.Bytes(4), 1, r.Bytes(32), good)), "pubkey_boundary_repeated_key_material", false)
+		parseOne(withChecksum(p2), "pubkey_boundary_repeated_key_material", false)
 	}
 	// a private-looking payload under a public version and vice versa (the version is not interpreted by the parser)
 	parseOne(withChecksum(payload78(nets[0].HDPublicKeyID[:], 1, r.Bytes(4), 7, r.Bytes(32), append([]byte{0}, r.Bytes(32)...))), "version_mismatch", true)
